@@ -21,11 +21,13 @@ import (
 	"net/http/httptest"
 	"net/url"
 	"path/filepath"
+	"reflect"
 	"strconv"
 	"strings"
 	"sync"
 	"testing"
 	"time"
+	"unsafe"
 
 	"github.com/Cloud-Foundations/keymaster/lib/authenticators/okta"
 	"github.com/Cloud-Foundations/keymaster/lib/simplestorage"
@@ -210,6 +212,17 @@ func (c *c14Totp) setLast(t *testing.T, user string, last int64) {
 	if err := st.SaveUserProfile(user, profile); err != nil {
 		t.Fatal(err)
 	}
+	// trees with fix 7fb7785 (C05) also remember the step of the last success in the throttle entry, and
+	// the replay guard takes the larger of the two: the simulated "last accepted step" has to be put there
+	// too (by name: the field does not exist before that fix)
+	st.totpLocalTateLimitMutex.Lock()
+	if e, ok := st.totpLocalRateLimit[user]; ok {
+		if f := reflect.ValueOf(&e).Elem().FieldByName("lastSuccessCounter"); f.IsValid() && f.Kind() == reflect.Int64 {
+			*(*int64)(unsafe.Pointer(f.UnsafeAddr())) = last
+			st.totpLocalRateLimit[user] = e
+		}
+	}
+	st.totpLocalTateLimitMutex.Unlock()
 }
 
 // move the virtual clock of every entry to `virtual` (ns): entries keep real times, so shift them back
